@@ -11,30 +11,131 @@ RULE = ("random histories of 8-35 operations biased towards table construction (
         "distinct = canonical JSON of the program; non-trivial = >= 2 structural operations and (a rejected operation "
         "or a zero-row / zero-column table)")
 ASSUMED = []
-MIX = {"newvec": 3, "newtab_dict": 6, "newtab_vecs": 4, "copy": 1, "slice": 3, "mask": 2, "colview": 2, "selcols": 2,
+MIX = {"vcat": 2, "newvec": 3, "newtab_dict": 6, "newtab_vecs": 4, "copy": 1, "slice": 3, "mask": 2, "colview": 2, "selcols": 2,
        "stack": 5, "append": 3, "join": 2, "sort": 1, "transpose": 2, "math": 1, "setv": 3, "sett": 5, "setattr": 5,
        "rename": 1, "read": 2, "drop": 1}
 
 
+# cell values of every kind the library treats as a scalar, iterable ones (str, bytes) included: the heap
+# histories only move None / ints / integral floats around
+CELLS = {
+    "int": [["i", 1], ["i", -2], ["i", 7]], "float": [["f", (0.5).hex()], ["f", (2.0).hex()]],
+    "str": [["s", "a"], ["s", "xyz"], ["s", ""]], "bytes": [["y", "7a"], ["y", "0001ff"], ["y", ""]],
+    "bool": [["b", True], ["b", False]], "date": [["d", 738000], ["d", 738001]],
+    "none": [["N"]],
+}     # (tuples and lists are SEQUENCES for << - the library concatenates them - so they are not used as cells)
+
+
+def rowappend_cases(rng, n):
+    """t << row and t >> column on tables whose cells are scalars of every kind (pure oracle stream: there is
+    nothing for the heap model to say about bytes or tuples)."""
+    cs = []
+    kinds = list(CELLS)
+    for _ in range(n):
+        w, h = rng.randint(1, 3), rng.randint(0, 3)
+        ks = [rng.choice(kinds[:-1]) for _ in range(w)]
+        cols = [[rng.choice(CELLS[k] + ([["N"]] if rng.random() < 0.2 else [])) for _ in range(h)] for k in ks]
+        row = [rng.choice(CELLS[k]) for k in ks]
+        if rng.random() < 0.15:
+            row = row[:-1] if rng.random() < 0.5 else row + [["i", 0]]          # wrong width: must be refused
+        cs.append({"op": "rowappend", "cols": cols, "row": row})
+    return cs
+
+
 def streams(rng, tier):
     n = 300 if tier == "quick" else 4000
-    return [("histories", [{"prog": H.gen_program(rng, rng.randint(8, 35), MIX)} for _ in range(n)])]
+    return [("histories", [{"prog": H.gen_program(rng, rng.randint(8, 35), MIX)} for _ in range(n)]),
+            ("rowappend", rowappend_cases(rng, 300 if tier == "quick" else 3000))]
+
+
+def _observe_rowappend(case):
+    from harness import values as V
+    from serif import Table, Vector
+    cols = [[V.dec(x) for x in c] for c in case["cols"]]
+    row = [V.dec(x) for x in case["row"]]
+    t = Table([Vector(c, name=f"c{j}") for j, c in enumerate(cols)])
+    if not isinstance(t, Table):
+        return {"skip": "not a table"}
+    before = [[repr(x) for x in r] for r in t] if cols and cols[0] else []
+    try:
+        out = t << row
+    except Exception as e:                                   # noqa: BLE001
+        return {"exc": type(e).__name__, "msg": str(e)[:120], "width_ok": len(row) == len(cols)}
+    o = {"width_ok": len(row) == len(cols), "is_table": isinstance(out, Table), "before": before,
+         "row": [repr(x) for x in row], "h": len(cols[0]) if cols else 0}
+    if isinstance(out, Table):
+        o["lens"] = [len(c) for c in out.cols()]
+        o["len"] = len(out)
+        o["rows"] = [[repr(x) for x in r] for r in out]
+        o["colcells"] = [[repr(x) for x in c] for c in out.cols()]
+    else:
+        o["lens"] = [len(c) if hasattr(c, "__len__") else None for c in out]
+    o["src_after"] = [[repr(x) for x in r] for r in t] if cols and cols[0] else []
+    return o
 
 
 def observe(case):
+    if case.get("op") == "rowappend":
+        try:
+            return _observe_rowappend(case)
+        except Exception as e:                               # noqa: BLE001
+            return {"broken": f"{type(e).__name__}: {e}"[:200]}
     return H.observe_program(case)
 
 
-emit = H.emit_trace
-oracle = H.oracle_for(("C02",))
-shrink = H.shrink_program
+def emit(case, obs):
+    if case.get("op") == "rowappend":
+        return "(@nil tstep)"                                # decided by the oracle alone
+    return H.emit_trace(case, obs)
+
+
+_heap_oracle = H.oracle_for(("C02",))
+
+
+def oracle(case, obs):
+    if case.get("op") != "rowappend":
+        return _heap_oracle(case, obs)
+    if "skip" in obs:
+        return None
+    if "broken" in obs:
+        return f"rowappend-observer: {obs['broken']}"
+    what = f"t << {case['row']} on columns {case['cols']}"
+    if not obs["width_ok"]:
+        if "exc" not in obs and obs.get("is_table"):
+            return f"rowappend-ragged-accepted: {what}: a row of the wrong width was stored"
+        return None
+    if "exc" in obs:
+        return f"rowappend-raises: {what} raised {obs['exc']}: {obs['msg']}"
+    h = obs["h"]
+    if not obs["is_table"] or obs["lens"] != [h + 1] * len(case["cols"]) or obs["len"] != h + 1:
+        return (f"rowappend-ragged: {what}: << must append one cell to every column; result is "
+                f"{'a table' if obs['is_table'] else 'not a table'} with column lengths {obs['lens']}")
+    if obs["rows"][:-1] != obs["before"]:
+        return f"rowappend-cells: {what}: existing rows changed: {obs['rows'][:-1]} vs {obs['before']}"
+    if obs["rows"][-1] != obs["row"]:
+        return f"rowappend-cells: {what}: the appended row reads back as {obs['rows'][-1]}"
+    if [list(r) for r in zip(*obs["colcells"])] != obs["rows"]:
+        return f"rowappend-rowview: {what}: rows {obs['rows']} disagree with columns {obs['colcells']}"
+    if obs["src_after"] != obs["before"]:
+        return f"rowappend-operand: {what}: the left operand changed"
+    return None
+
+
+def shrink(case):
+    if case.get("op") == "rowappend":
+        return []
+    return H.shrink_program(case)
 
 
 def nontrivial(case, obs):
+    if case.get("op") == "rowappend":
+        return "skip" not in obs and "broken" not in obs
     st = obs.get("stats") or {}
     return st.get("tables", 0) >= 2 and (st.get("failed_ops", 0) >= 1 or st.get("zero_tables", 0) >= 1)
 
 
 def describe(case, obs, stream):
+    if case.get("op") == "rowappend":
+        return ["rowappend:" + ("refused" if "exc" in obs else "ok")]
     st = obs.get("stats") or {}
     return [f"has:{k}" for k in ("tables", "failed_ops", "zero_tables", "writes_ok") if st.get(k)]
